@@ -431,6 +431,10 @@ func generateTables(source *syntax.Model, out *grammar.Grammar, opts genOptions,
 	parser.Actions = append(parser.Actions, grammar.SemanticAction{})
 	var rules []*grammar.Rule
 	midrule := newCommandExtractor(source, len(out.Syms))
+	for _, sym := range out.Syms {
+		// Extracted nonterminals must not reuse the identifier of an existing symbol either.
+		midrule.takenID[sym.ID] = true
+	}
 	for self, nt := range source.Nonterms {
 		if nt.Value.Kind == syntax.Lookahead {
 			la := lalr.Lookahead{
@@ -707,6 +711,7 @@ func addTypes(vars *grammar.ActionVars, syms []grammar.Symbol) {
 type commandExtractor struct {
 	baseSyms  int
 	takenName map[string]bool
+	takenID   map[string]bool
 	index     map[commandKey]lalr.Sym
 	prev      *syntax.Nonterm
 	counter   int
@@ -739,7 +744,7 @@ func newCommandExtractor(m *syntax.Model, baseSyms int) *commandExtractor {
 	for _, nt := range m.Nonterms {
 		taken[nt.Name] = true
 	}
-	return &commandExtractor{takenName: taken, index: make(map[commandKey]lalr.Sym), baseSyms: baseSyms}
+	return &commandExtractor{takenName: taken, takenID: make(map[string]bool), index: make(map[commandKey]lalr.Sym), baseSyms: baseSyms}
 }
 
 func (e *commandExtractor) extract(n *syntax.Nonterm, command string, vars *grammar.ActionVars, cmdOrigin status.SourceNode) lalr.Sym {
@@ -761,11 +766,12 @@ func (e *commandExtractor) extract(n *syntax.Nonterm, command string, vars *gram
 	for {
 		e.counter++
 		name = fmt.Sprintf("%s$%v", n.Name, e.counter)
-		if _, ok := e.takenName[name]; !ok {
+		if _, ok := e.takenName[name]; !ok && !e.takenID[ident.Produce(name, ident.CamelCase)] {
 			break
 		}
 	}
 	e.takenName[name] = true
+	e.takenID[ident.Produce(name, ident.CamelCase)] = true
 	var args *syntax.CmdArgs
 	if vars != nil {
 		args = new(syntax.CmdArgs)
